@@ -1,3 +1,69 @@
 import TlsModel.Proto
-/- driver stub for C06: replaced when the model exists -/
-def main : IO Unit := Tls.protoMain (fun _ => none)
+import TlsModel.Order
+/-
+  Driver for C06.
+    run <cfg> <tok> ...      -> <status> acc=<n> accdone=<n> del=<n> ep=<n> warn=<n> hs=<0|1> st=<state> steps=<codes>
+         status: complete | waiting | abort@<i>:<alert> | closed@<i>
+         codes (one per token): N accepted, X accepted-then-abort, I ignored, W warning sent,
+                                D data delivered, P post-handshake message, A abort, C closed by peer alert, - not read
+    accepts <cfg> <tok> ...  -> true|false   (handshake completes exactly on the last token)
+    allowed <cfg> <kind> ... -> true|false   (RFC grammar)
+    valid <cfg>              -> true|false
+    hsstart <cfg> <tok> ...  -> ok|error     (_handshakeStart after the run)
+  cfg = role,ver,kx,reqCert,clientCert,tickets,npn,hrr,resume,compCert,hb,compat ; tok = kind[:epoch][+]
+-/
+open Tls Tls.Order
+
+def outCode : Out → Char
+  | .next _ _ => 'N' | .acceptAbort _ => 'X' | .ignore => 'I' | .warn => 'W'
+  | .deliver => 'D' | .post => 'P' | .abort _ => 'A' | .peerClosed => 'C' | .acceptClosed => 'C'
+
+/-- fold with a log: (run, index of the token that killed the connection, codes) -/
+def runLog (c : Cfg) (ms : List Msg) : Run × Option Nat × List Char :=
+  let rec go (r : Run) (i : Nat) (dead : Option Nat) (acc : List Char) : List Msg → Run × Option Nat × List Char
+    | [] => (r, dead, acc.reverse)
+    | m :: ms =>
+      if r.st == .dead then go r (i + 1) dead ('-' :: acc) ms
+      else
+        let o := step c r.st r.epoch r.recsInEpoch m
+        let r' := feed c r m
+        go r' (i + 1) (if r'.st == .dead then some i else dead) (outCode o :: acc) ms
+  go (start c) 0 none [] ms
+
+def showRun (c : Cfg) (ms : List Msg) : String :=
+  let (r, dead, codes) := runLog c ms
+  let status :=
+    match dead with
+    | some i =>
+      (match r.alert with
+       | some a => s!"abort@{i}:{a.name}"
+       | none => s!"closed@{i}")
+    | none => if r.hsDone then "complete" else "waiting"
+  let codeStr := if codes.isEmpty then "." else String.ofList codes
+  s!"{status} acc={r.acc} accdone={r.accAtDone} del={r.delivered} ep={r.epoch} warn={r.warns} hs={if r.hsDone then 1 else 0} st={r.st.name} steps={codeStr}"
+
+def handle : List String → Option String
+  | "run" :: cfg :: toks => do
+    let c ← Cfg.ofString cfg
+    let ms ← toks.mapM Msg.ofString
+    some (showRun c ms)
+  | "accepts" :: cfg :: toks => do
+    let c ← Cfg.ofString cfg
+    let ms ← toks.mapM Msg.ofString
+    some (boolOut (accepts c ms))
+  | "allowed" :: cfg :: ks => do
+    let c ← Cfg.ofString cfg
+    let ks ← ks.mapM MsgKind.ofName
+    some (boolOut (allowed c ks))
+  | ["valid", cfg] => do
+    let c ← Cfg.ofString cfg
+    some (boolOut c.valid)
+  | "hsstart" :: cfg :: toks => do
+    let c ← Cfg.ofString cfg
+    let ms ← toks.mapM Msg.ofString
+    match handshakeStart (run c (start c) ms) with
+    | .ok _ => some "ok"
+    | .error _ => some "error"
+  | _ => none
+
+def main : IO Unit := protoMain handle
